@@ -75,6 +75,9 @@ CLAIMED = {
  "C40": ("other", "sibling agreement of hand-inlined header wrappers with the generated codecs, tag-set containment, ordering and who-may-write rules",
          "Decides that each hand-inlined wrapper in preparePacket/ParseInvokeReq/prepareResponseBody/parseResponseExtra has exactly the wire program of the generated type whose tag it uses; every wrapper tag a writer can emit is handled by the opposite reader; the TL2 marker is written last and required last; duplicates are rejected; actor id, extras, query id and error code/description map one-to-one between struct fields and wire; and the only writes to Request.Extra/ActorID, HandlerContext.RequestExtra/ResponseExtra/actorID and Response.Extra inside pkg/rpc are the 14 triaged ones (decode itself, documented timeout min-rule, context injection only when unset, response mask by request flags). The generated Extra codecs themselves are C01's subject.",
          "clause only; documented adjustments (timeout min, response flags masked by request flags) are part of the table, not violations", "DESIGN.md §3 C40"),
+ "C41": ("other", "constant agreement, left/right mirror agreement, modify-then-repair path rule, who-may-write, wrap-rule sibling agreement and guard-before-access rules on the container sources",
+         "Does NOT decide equivalence with a reference container over histories. Decides necessary structure: a fresh AVL node's height equals updateHeight's value for a childless node; right-hand functions are exact mirror images of the left-hand ones (rotations, double rotations, min/max, the two halves of repairBalance with negated thresholds); rotations recompute the demoted node first; every path of insert/remove/extractMin that reassigns a child returns repairBalance() and Set/Delete store the new root; insert/remove/find use the comparator in the same direction; structure fields have a closed writer set. Ring buffer: one wrap rule in PushBack/IndexRef/Slices/PopFront, range/emptiness panic before every element access, grow-before-write, order-preserving Reserve, zeroing of vacated slots, Swap/DeepAssign cover all struct fields.",
+         "clause only; two genuine defects found by these rules were repaired (known_findings.txt)", "DESIGN.md §3 C41"),
  "C42": ("other", "lockset + control-dependence (admission guard) + pairing (wake-up before unlock) rules on the semaphore source",
          "Decides that cur/size/waiters are accessed only with mu held in the property's operations, that every non-forced cur += n is control-dependent on size-cur >= n for the same n (fast paths also on an empty queue), that every capacity-raising statement or waiter removal is followed by notifyWaiters before the unlock, and that notifyWaiters admits from the front with cur+=n, Remove, close together. Liveness under the scheduler and fairness are not decided.",
          "clause only; trusts sync.Mutex and container/list", "DESIGN.md §3 C42"),
